@@ -276,8 +276,14 @@ class FakeTRX(Transceiver):
 		elif self.ctrl_if.verify_cmd(request, "FAKE_TOA", 2):
 			log.debug("(%s) Recv FAKE_TOA cmd" % self)
 
-			# Parse and apply both base and threshold
+			# Parse both base and threshold
 			(base, threshold) = (int(request[1]), int(request[2]))
+			if threshold < 0:
+				log.error("(%s) FAKE_TOA threshold shall not "
+					"be negative" % self)
+				return -1
+
+			# Apply both base and threshold
 			self.toa256_base = base
 			self.toa256_rand_threshold = threshold
 			return 0
@@ -324,8 +330,14 @@ class FakeTRX(Transceiver):
 		elif self.ctrl_if.verify_cmd(request, "FAKE_CI", 2):
 			log.debug("(%s) Recv FAKE_CI cmd" % self)
 
-			# Parse and apply both base and threshold
+			# Parse both base and threshold
 			(base, threshold) = (int(request[1]), int(request[2]))
+			if threshold < 0:
+				log.error("(%s) FAKE_CI threshold shall not "
+					"be negative" % self)
+				return -1
+
+			# Apply both base and threshold
 			self.ci_base = base
 			self.ci_rand_threshold = threshold
 			return 0
